@@ -11,9 +11,6 @@ From F8 Require Import C08.NumInt C08.NumFloat C08.Spec_C08 C08.NumIntProofs C08
 Import ListNotations.
 Local Open Scope Z_scope.
 
-Lemma rnd64_format : forall y, generic_format radix2 fexp64 y -> rnd64 y = y.
-Proof. intros y H. unfold rnd64. apply round_generic; [apply valid_rnd_N | exact H]. Qed.
-
 (* c representable and c < rnd y  ->  c < y ;  rnd y < c -> y < c *)
 Lemma rnd64_gt_inv : forall c y, generic_format radix2 fexp64 c -> (c < rnd64 y)%R -> (c < y)%R.
 Proof.
@@ -41,40 +38,7 @@ Proof.
     + cbn [Fexp]. lia.
 Qed.
 
-(* a double minus an integer just below it is a double *)
-Lemma sub_int_exact : forall (x : f64) w, is_finite x = true -> 0 <= w ->
-  (IZR w <= B2R x < IZR w + 1)%R -> generic_format radix2 fexp64 (B2R x - IZR w).
-Proof.
-  intros x w Fx Hw0 Hw.
-  destruct (FLT_format_B2R 53 1024 Hprec64 x) as [[mf ef] E Hm He].
-  cbn [Fnum Fexp] in Hm, He. rewrite E in *. unfold F2R in *. cbn [Fnum Fexp] in *.
-  assert (Hbp : (0 < bpow radix2 ef)%R) by apply bpow_gt_0.
-  assert (Hmf : 0 <= mf).
-  { apply le_IZR. assert (0 <= IZR w)%R by (apply IZR_le; lia).
-    apply Rmult_le_reg_r with (bpow radix2 ef); [exact Hbp | lra]. }
-  destruct (Z_le_gt_dec 0 ef) as [Ep | En].
-  - (* an integer: equal to w *)
-    rewrite <- IZR_Zpower in * by exact Ep. rewrite <- mult_IZR in *.
-    assert (mf * radix2 ^ ef = w).
-    { apply Z.le_antisymm; [| apply le_IZR; lra].
-      assert (mf * radix2 ^ ef < w + 1); [| lia]. apply lt_IZR. rewrite plus_IZR. lra. }
-    rewrite H. rewrite Rminus_diag_eq by reflexivity. apply generic_format_0.
-  - apply generic_format_FLT.
-    exists (Float radix2 (mf - w * 2 ^ (- ef)) ef).
-    + unfold F2R. cbn [Fnum Fexp]. rewrite minus_IZR, mult_IZR.
-      change (2 ^ (- ef)) with (radix2 ^ (- ef)).
-      rewrite (IZR_Zpower radix2 (- ef)) by lia.
-      rewrite Rmult_minus_distr_r, Rmult_assoc, <- bpow_plus.
-      replace (- ef + ef) with 0 by lia. cbn [bpow]. ring.
-    + cbn [Fnum].
-      assert (H2 : 0 < 2 ^ (- ef)) by (apply Z.pow_pos_nonneg; lia).
-      assert (Hlow : w * 2 ^ (- ef) <= mf).
-      { apply le_IZR. rewrite mult_IZR. change (2 ^ (- ef)) with (radix2 ^ (- ef)). rewrite (IZR_Zpower radix2 (- ef)) by lia.
-        apply Rmult_le_reg_r with (bpow radix2 ef); [exact Hbp |].
-        rewrite Rmult_assoc, <- bpow_plus. replace (- ef + ef) with 0 by lia. cbn [bpow]. lra. }
-      assert (0 <= w * 2 ^ (- ef)) by (apply Z.mul_nonneg_nonneg; lia). lia.
-    + cbn [Fexp]. exact He.
-Qed.
+
 
 (* When the tie test of the rounding stage is false (diff != 0.5), whole * 10^p + frac is the
    integer nearest to |v| * 10^p, at distance < 1/2. *)
@@ -85,7 +49,7 @@ Lemma stage_nearest_lemma : forall v p, is_finite v = true -> 1 <= p <= 9 ->
                (Rabs (B2R (ds_value st) * IZR (10 ^ p) - IZR (ds_whole st * 10 ^ p + ds_frac st)) < / 2)%R
   end.
 Proof.
-  intros v p Fv Hp1. assert (Hp : 0 <= p <= 9) by lia. unfold dtoa_stage.
+  intros v p Fv Hp1. assert (Hp : 0 <= p <= 9) by lia. unfold dtoa_stage, dtoa_stage_gen.
   destruct (abs_value v Fv) as [Fval Pval]. cbv zeta in Fval, Pval.
   set (value := if flt v fzero then fneg v else v) in *.
   destruct (trunc_bounds value Fval Pval) as [w [Ew [Hw0 Hw]]]. rewrite Ew.
@@ -159,7 +123,9 @@ Proof.
     destruct (Rlt_bool_spec (/ 2) (B2R tmp - IZR f0)) as [Hgt | Hle]; [discriminate |].
     destruct (feq diff fhalf) eqn:Etie; cbn [andb].
     + (* the tie test fires: excluded by the hypothesis in both sub-branches *)
-      destruct ((f0 =? 0) || Z.odd f0); cbn [ds_whole0 ds_whole ds_frac ds_value ds_diff];
+      destruct ((f0 =? 0) || Z.odd f0);
+        repeat match goal with |- context [if ?b then (_, _) else (_, _)] => destruct b end;
+        cbn [ds_whole0 ds_whole ds_frac ds_value ds_diff];
         intros _ Hx; rewrite Etie in Hx; discriminate.
     + cbn [ds_whole0 ds_whole ds_frac ds_value ds_diff]. intros _ _.
       unfold feq in Etie. rewrite Beqb_correct in Etie by assumption. rewrite Rdf, Rh in Etie.
@@ -192,8 +158,8 @@ Lemma dtoa_p0_gen : forall v value, value = (if flt v fzero then fneg v else v) 
             ((Rabs (B2R value - IZR N) = / 2)%R -> Z.even N = true).
 Proof.
   intros v value Evalue Fv Hthres.
-  unfold modp_dtoa. rewrite (feq_finite_refl v Fv). cbn [negb].
-  change (clamp_prec 0) with 0. unfold dtoa_stage.
+  unfold modp_dtoa, modp_dtoa_with. rewrite (feq_finite_refl v Fv). cbn [negb].
+  change (clamp_prec 0) with 0. unfold dtoa_stage, dtoa_stage_gen.
   destruct (abs_value v Fv) as [Fval Pval]. cbv zeta in Fval, Pval.
   rewrite <- Evalue in Fval, Pval.
   pose proof (flt_thres_real _ Fval Hthres) as Hle.
@@ -311,6 +277,7 @@ Proof.
       - exists w. split; [apply Hfin; lia |]. split; [lia |].
         assert (Habs : (Rabs (B2R value - IZR w) < / 2)%R) by (apply Rabs_def1; lra).
         split; [lra | intros Hx; lra]. }
+    cbn [Z.ltb Z.compare andb].
     destruct (feq diff fhalf && ((0 =? 0) || Z.odd 0)); apply Hcommon.
 Qed.
 
